@@ -4,6 +4,7 @@ import (
 	"fmt"
 	"io"
 	"net"
+	"runtime"
 	"sync"
 	"time"
 
@@ -87,6 +88,8 @@ type Transport struct {
 	AfterCloseWrites int
 	// ReadWaiting is true while a Read is parked waiting for data.
 	readWaiting bool
+	// SlowWrites (real-goroutine mode): Write/Writev yield the processor once before they take effect.
+	SlowWrites bool
 	// SplitWrites makes a buffered Write/Writev copy in two halves with a yield in between.
 	SplitWrites bool
 	// OnAccept is called (under no lock) with every accepted chunk at the moment of acceptance.
@@ -238,6 +241,9 @@ func (t *Transport) accept(b []byte) {
 func (t *Transport) Write(p []byte) (int, error) {
 	t.enterW("Write")
 	defer t.exitW()
+	if t.SlowWrites && t.S == nil {
+		runtime.Gosched()
+	}
 	t.yield("t.write", nil)
 	t.mu.Lock()
 	idx := t.record(TEvent{Kind: "write", Start: len(t.accepted)})
